@@ -67,6 +67,15 @@ MUTATIONS = [
     ("C01", "string-option-nfd-on-encode", FIX + [_UNI, (OTY, '        rawdata = self.value.encode("utf-8")\n', '        rawdata = unicodedata.normalize("NFD", self.value).encode("utf-8")\n')]),
     # ... compatibility-composed when parsed
     ("C01", "string-option-nfkc-on-decode", FIX + [_UNI, (OTY, '        self.value = rawdata.decode("utf-8")\n', '        self.value = unicodedata.normalize("NFKC", rawdata.decode("utf-8"))\n')]),
+    # found by the white-box adversary (notes/adversary/C01_miss*.md), stored diffs:
+    # Max-Age with the default value 60 left out when serialising
+    ("C01", "adv-max-age-default-elided", FIX + [("@patch", "notes/adversary/C01_miss1.diff", 3)]),
+    # bare LF in string options rewritten to CR LF when serialising
+    ("C01", "adv-string-lf-to-crlf-on-encode", FIX + [("@patch", "notes/adversary/C01_miss2.diff", 3)]),
+    # Location-Path "." / ".." refused as unparsable
+    ("C01", "adv-location-path-dot-segments-rejected", FIX + [("@patch", "notes/adversary/C01_miss3.diff", 3)]),
+    # Uri-Path / Uri-Query percent-decoded when parsed
+    ("C01", "adv-uri-path-query-percent-decoded", FIX + [("@patch", "notes/adversary/C01_miss3_variant_percent_decoding.diff", 3)]),
     # short datagrams: the struct error is no longer translated
     ("C01", "short-datagram-struct-error-escapes", FIX + [(MSG, "        except struct.error:\n            raise error.UnparsableMessage(\"Incoming message too short for CoAP\")\n", "        except struct.error:\n            raise\n")]),
 ]
